@@ -34,7 +34,7 @@ Definition mu (X : side) st (q : list event) : nat :=
   length (rec_of (is_client X) (messages (fl st))) + count_data X q.
 
 Definition I4 (X : side) (k : nat) st (q : list event) (out : list cmd) : Prop :=
-  ignore (cf st) = false /\ wait_ph_ok st /\ crashed st = false /\ wait st <> WErrorHook /\
+  pr (cf st) = UDP /\ ignore (cf st) = false /\ wait_ph_ok st /\ crashed st = false /\ wait st <> WErrorHook /\
   forallb payload_only q = true /\
   (ph st = PStart -> waiting st = true \/ q = []) /\
   (ph st = PDone -> count_data X q = 0 /\ can_read (client st) = false /\ can_read (server st) = false) /\
@@ -57,7 +57,7 @@ Proof.
   rewrite !len_rec_cons. reflexivity.
 Qed.
 
-Ltac inv4 H := destruct H as (Hi & Hp & Hc & Hne & Hq & Hn & Hd & Hk).
+Ltac inv4 H := destruct H as (Hu & Hi & Hp & Hc & Hne & Hq & Hn & Hd & Hk).
 
 Lemma eqb_is_client X : Bool.eqb (is_client X) (is_client X) = true.
 Proof. destruct X; reflexivity. Qed.
@@ -96,7 +96,7 @@ Lemma I4_queue X k st q out q' : I4 X k st q out -> I4 X k (set_queue st q') q o
 Proof. intros H; exact H. Qed.
 
 Lemma I4_intro X k st q (out : list cmd) :
-  ignore (cf st) = false -> wait_ph_ok st -> crashed st = false -> wait st <> WErrorHook ->
+  pr (cf st) = UDP -> ignore (cf st) = false -> wait_ph_ok st -> crashed st = false -> wait st <> WErrorHook ->
   forallb payload_only q = true -> (ph st = PStart -> waiting st = true \/ q = []) ->
   (ph st = PDone -> count_data X q = 0) -> (ph st = PDone -> can_read (client st) = false) ->
   (ph st = PDone -> can_read (server st) = false) -> k <= mu X st q -> I4 X k st q out.
@@ -146,7 +146,7 @@ Proof.
       unfold mu; simpl; rewrite ?messages_apply_kill; auto.
   - (* OpenConnection: err = false by the guard *)
     destruct err; [discriminate|].
-    unfold_layer. inversion Hr; subst; clear Hr. fin4 Hd.
+    unfold_layer. simpl in Hr. rewrite ?Hu in Hr. inversion Hr; subst; clear Hr. fin4 Hd.
   - congruence.
   - (* message hook *)
     unfold_layer. inversion Hr; subst; clear Hr. fin4 Hd.
@@ -166,8 +166,9 @@ Proof.
   destruct e as [|f d|f|fc d|a err]; try contradiction; simpl env_arrive in Hh.
   - (* EStart *)
     unfold started in HG. rewrite Ew in HG. destruct (ph st) eqn:Eph; try discriminate.
-    unfold handle in Hh. rewrite Eph in Hh. unfold start, has_flow in Hh. rewrite Hi in Hh. simpl in Hh.
-    inversion Hh; subst; clear Hh. fin4 Hd.
+    unfold handle in Hh. rewrite Eph in Hh. unfold start, mark_unreadable, has_flow in Hh.
+    rewrite Hu in Hh. destruct (server_open (cf st)); rewrite ?Hu, Hi in Hh; simpl in Hh;
+      inversion Hh; subst; clear Hh; fin4 Hd.
   - (* EData *)
     apply andb_true_iff in HG as [Hs Hr]. unfold started in Hs. rewrite Ew in Hs.
     unfold handle in Hh. destruct (ph st) eqn:Eph; try discriminate.
@@ -256,21 +257,21 @@ Proof.
     unfold count_data in *. simpl. destruct (is_data X e); simpl in *; lia.
 Qed.
 
-Lemma I4_init X c : ignore c = false -> Inv (I4 X 0) (init c) [].
+Lemma I4_init X c : pr c = UDP -> ignore c = false -> Inv (I4 X 0) (init c) [].
 Proof.
-  intros Hi. split; [|reflexivity]. unfold I4. simpl.
+  intros Hu Hi. split; [|reflexivity]. unfold I4. simpl.
   repeat split; auto; try discriminate; try (intros A; discriminate); lia.
 Qed.
 
 (* T4 (partial): under the calm environment contract every chunk that arrived from X is recorded
    in the flow or still waits in the event queue *)
-Lemma no_loss pol c evs X :
-  ignore c = false -> respects true pol (init c) evs = true ->
+Lemma no_loss_udp pol c evs X :
+  pr c = UDP -> ignore c = false -> respects true pol (init c) evs = true ->
   let '(st, out) := run pol (init c) evs in
   count_data X evs <= length (recorded (is_client X) (fl st)) + count_data X (queue st).
 Proof.
-  intros Hi HR. destruct (run pol (init c) evs) as [st out] eqn:H.
-  pose proof (no_loss_gen pol X evs 0 (init c) [] st out (I4_init X c Hi) HR H) as L.
+  intros Hu Hi HR. destruct (run pol (init c) evs) as [st out] eqn:H.
+  pose proof (no_loss_gen pol X evs 0 (init c) [] st out (I4_init X c Hu Hi) HR H) as L.
   unfold mu in L. simpl in L. unfold count_data in L at 2. simpl in L.
   unfold recorded. fold (rec_of (is_client X) (messages (fl st))). lia.
 Qed.
@@ -311,8 +312,11 @@ Fixpoint injects_live (pol : policy) st (evs : list event) : bool :=
 (* nothing more will be sent to Y *)
 Definition Q (Y : side) st (q : list event) : Prop :=
   ph st <> PStart /\ can_read (conn_of st (other Y)) = false /\ count_from (other Y) q = 0 /\ wait st <> WMsgHook Y.
+Definition E5 st : Prop :=
+  (forall Y, eof_of st Y = true -> can_read (conn_of st Y) = false) /\
+  (ph st = PStart -> server_open (cf st) = false -> eof_s st = false).
 Definition I5 st (q : list event) (out : list cmd) : Prop :=
-  wait_ph_ok st /\ crashed st = false /\ wait st <> WErrorHook /\ forallb payload_only q = true /\
+  E5 st /\ wait_ph_ok st /\ crashed st = false /\ wait st <> WErrorHook /\ forallb payload_only q = true /\
   (ph st = PStart -> waiting st = true \/ q = []) /\
   late_send out = false /\
   (shut_in Client out = true -> Q Client st q) /\ (shut_in Server out = true -> Q Server st q).
@@ -338,14 +342,14 @@ Qed.
 
 Lemma I5_extend st q out st' q' o :
   I5 st q out ->
-  wait_ph_ok st' -> crashed st' = false -> wait st' <> WErrorHook -> forallb payload_only q' = true ->
+  E5 st' -> wait_ph_ok st' -> crashed st' = false -> wait st' <> WErrorHook -> forallb payload_only q' = true ->
   (ph st' = PStart -> waiting st' = true \/ q' = []) ->
   late_send o = false ->
   (forall Y, Q Y st q -> has_send Y o = false /\ Q Y st' q') ->
   (forall Y, shut_in Y o = true -> Q Y st' q') ->
   I5 st' q' (out ++ o).
 Proof.
-  intros (_ & _ & _ & _ & _ & Hl & HC & HS) A1 A2 A3 A4 A5 Ho Hpres Hnew.
+  intros (_ & _ & _ & _ & _ & _ & Hl & HC & HS) A0 A1 A2 A3 A4 A5 Ho Hpres Hnew.
   unfold I5. repeat (split; [assumption|]).
   split.
   - unfold late_send in *. rewrite late_app, Hl, late_from_flags, Ho. simpl.
@@ -374,7 +378,17 @@ Ltac solveQ :=
   | H : _ || _ = false |- _ => apply orb_false_iff in H; destruct H
   end; simpl in *; intuition (try congruence; try discriminate; try lia).
 
-Ltac inv5 H := destruct H as (Hp & Hc & Hne & Hq & Hn & Hl & HQC & HQS).
+Ltac solveE HE :=
+  let E1 := fresh "E1" in let E2 := fresh "E2" in
+  destruct HE as [E1 E2]; unfold E5; simpl; split;
+  [ let Y := fresh "Y" in intros Y; pose proof (E1 Client); pose proof (E1 Server); destruct Y; simpl in *;
+    repeat match goal with
+    | H : negb _ = true |- _ => apply negb_true_iff in H
+    | H : negb _ = false |- _ => apply negb_false_iff in H
+    end; intuition congruence
+  | simpl in *; intuition congruence ].
+
+Ltac inv5 H := destruct H as (HE & Hp & Hc & Hne & Hq & Hn & Hl & HQC & HQS).
 
 Lemma I5_handle st e q out st' o :
   I5 st (e :: q) out -> waiting st = false -> crashed st = false -> handle st e = (st', o) -> I5 st' q (out ++ o).
@@ -386,11 +400,11 @@ Proof.
   - destruct (Hn eq_refl) as [A|A]; [unfold waiting in A; rewrite Ew in A|]; discriminate.
   - destruct e as [|f d|f|fc d|a err]; try discriminate; simpl in Hh;
       unfold relay_data in Hh; destruct (has_flow st); inversion Hh; subst; clear Hh;
-      (apply (I5_extend _ _ _ _ _ _ H0); clear H0 HQC HQS Hl; [..|solveQ|solveQ];
+      (apply (I5_extend _ _ _ _ _ _ H0); clear H0 HQC HQS Hl; [try (solveE HE)|..|solveQ|solveQ];
        unfold wait_ph_ok; simpl; rewrite ?Ew; auto; try discriminate; try (intros A; congruence);
        try (destruct f; reflexivity); try (destruct fc; reflexivity)).
   - destruct e as [|f d|f|fc d|a err]; try discriminate; simpl in Hh; inversion Hh; subst; clear Hh;
-      (apply (I5_extend _ _ _ _ _ _ H0); clear H0 HQC HQS Hl; [..|solveQ|solveQ];
+      (apply (I5_extend _ _ _ _ _ _ H0); clear H0 HQC HQS Hl; [try (solveE HE)|..|solveQ|solveQ];
        auto; try (intros A; congruence)).
 Qed.
 
@@ -407,19 +421,19 @@ Proof.
   - inversion Hr; subst. rewrite app_nil_r. exact H0.
   - unfold_layer. simpl in Hr.
     split_run Hr; inversion Hr; subst; clear Hr;
-      (apply (I5_extend _ _ _ _ _ _ H0); clear H0 HQC HQS Hl; [..|solveQ|solveQ];
+      (apply (I5_extend _ _ _ _ _ _ H0); clear H0 HQC HQS Hl; [try (solveE HE)|..|solveQ|solveQ];
        unfold wait_ph_ok; simpl; auto; try discriminate; try (intros A; congruence); try (left; reflexivity)).
   - destruct err; [discriminate|].
     unfold_layer. inversion Hr; subst; clear Hr.
-    apply (I5_extend _ _ _ _ _ _ H0); clear H0 HQC HQS Hl; [..|solveQ|solveQ];
+    apply (I5_extend _ _ _ _ _ _ H0); clear H0 HQC HQS Hl; [try (solveE HE)|..|solveQ|solveQ];
       unfold wait_ph_ok; simpl; auto; try discriminate; try (intros A; congruence).
   - congruence.
   - unfold_layer. inversion Hr; subst; clear Hr.
-    apply (I5_extend _ _ _ _ _ _ H0); clear H0 HQC HQS Hl; [..|solveQ|solveQ];
+    apply (I5_extend _ _ _ _ _ _ H0); clear H0 HQC HQS Hl; [try (solveE HE)|..|solveQ|solveQ];
       unfold wait_ph_ok; simpl; auto; try discriminate; try (intros A; congruence);
       try (destruct to; reflexivity).
   - unfold_layer. inversion Hr; subst; clear Hr.
-    apply (I5_extend _ _ _ _ _ _ H0); clear H0 HQC HQS Hl; [..|solveQ|solveQ];
+    apply (I5_extend _ _ _ _ _ _ H0); clear H0 HQC HQS Hl; [try (solveE HE)|..|solveQ|solveQ];
       unfold wait_ph_ok; simpl; auto; try discriminate; try (intros A; congruence).
 Qed.
 
@@ -460,13 +474,13 @@ Proof.
     unfold started in HG. rewrite Ew in HG. destruct (ph st) eqn:Eph; try discriminate.
     unfold handle in Hh. rewrite Eph in Hh. unfold_layer.
     split_run Hh; inversion Hh; subst; clear Hh;
-      (apply (I5_extend _ _ _ _ _ _ H0); clear H0 HQC HQS Hl; [..|solveQ|solveQ];
+      (apply (I5_extend _ _ _ _ _ _ H0); clear H0 HQC HQS Hl; [try (solveE HE)|..|solveQ|solveQ];
        unfold wait_ph_ok; simpl; auto; try discriminate; try (intros A; congruence)).
   - (* EData *)
     apply andb_true_iff in HG as [Hs Hr]. unfold started in Hs. rewrite Ew in Hs.
     unfold handle in Hh. destruct (ph st) eqn:Eph; try discriminate.
     + unfold relay_data in Hh. destruct (has_flow st); inversion Hh; subst; clear Hh;
-        (apply (I5_extend _ _ _ _ _ _ H0); clear H0 HQC HQS Hl; [..|solveQ|solveQ];
+        (apply (I5_extend _ _ _ _ _ _ H0); clear H0 HQC HQS Hl; [try (solveE HE)|..|solveQ|solveQ];
          unfold wait_ph_ok; simpl; rewrite ?Ew; auto; try discriminate; try (intros A; congruence);
          try (destruct f; reflexivity)).
     + inversion Hh; subst; clear Hh. rewrite app_nil_r. exact H0.
@@ -478,13 +492,13 @@ Proof.
     destruct (ph st) eqn:Eph; try discriminate;
     destruct (pr (cf st)) eqn:Epr, f; simpl in Hh; rewrite ?Eph, ?Epr in Hh; simpl in Hh;
       split_run Hh; inversion Hh; subst; clear Hh;
-      (apply (I5_extend _ _ _ _ _ _ H0); clear H0 HQC HQS Hl; [..|solveQ|solveQ];
+      (apply (I5_extend _ _ _ _ _ _ H0); clear H0 HQC HQS Hl; [try (solveE HE)|..|solveQ|solveQ];
        unfold wait_ph_ok; simpl; rewrite ?Ew; auto; try discriminate; try (intros A; congruence)).
   - (* EInject *)
     unfold started in HG. rewrite Ew in HG.
     unfold handle in Hh. destruct (ph st) eqn:Eph; try discriminate.
     + unfold relay_data in Hh. destruct (has_flow st); inversion Hh; subst; clear Hh;
-        (apply (I5_extend _ _ _ _ _ _ H0); clear H0 HQC HQS Hl; [..|solveQ|solveQ];
+        (apply (I5_extend _ _ _ _ _ _ H0); clear H0 HQC HQS Hl; [try (solveE HE)|..|solveQ|solveQ];
          unfold wait_ph_ok; simpl; rewrite ?Ew; auto; try discriminate; try (intros A; congruence);
          try (destruct fc; reflexivity)).
     + inversion Hh; subst; clear Hh. rewrite app_nil_r. exact H0.
